@@ -203,7 +203,8 @@ theorem define_ok {env : List OType} {d : Def} {t : OType} (h : define env d = .
     ∃ attrs, defineAttrs (parentOf env d) (d.decls (parentOf env d)) = .ok attrs ∧
       checkSerialization attrs (parentOf env d) false [] (d.serialization.getD []) = .ok () ∧
       t = { id := env.length, attrs := attrs, equality := d.equality.toList?,
-            includeType := d.includeType.getD true, serialization := d.serialization, params := d.params } ::
+            includeType := d.includeType.getD true, serialization := d.serialization, params := d.params,
+            funcs := d.funcs } ::
           parentOf env d := by
   unfold define at h
   generalize parentOf env d = parent at h ⊢
@@ -218,6 +219,10 @@ theorem define_ok {env : List OType} {d : Def} {t : OType} (h : define env d = .
     | error c => simp [ha] at h
     | ok attrs =>
       simp only [ha] at h
+      cases hfn : defineFuncs parent d.funcs with
+      | error c => simp [hfn] at h
+      | ok u0 =>
+      simp only [hfn] at h
       cases he : checkEquality attrs parent (d.equality.toList?.getD []) with
       | error c => simp [he] at h
       | ok u =>
@@ -455,7 +460,7 @@ theorem define_wf {env : List OType} {d : Def} {t : OType} (henv : ∀ t' ∈ en
   obtain ⟨h1, h2⟩ := defineAttrs_ok hattrs
   subst ht
   have hok := typeOK_cons
-    (l := ⟨env.length, attrs, d.equality.toList?, d.includeType.getD true, d.serialization, d.params⟩)
+    (l := ⟨env.length, attrs, d.equality.toList?, d.includeType.getD true, d.serialization, d.params, d.funcs⟩)
     hparent (by rw [h1]; exact decls_nodup hnd hcn hboth) h2
   refine ⟨hok, ?_⟩
   rcases Option.eq_none_or_eq_some d.serialization with hs | ⟨ser, hs⟩
